@@ -303,6 +303,22 @@ def _native_attr_values(tier, seed):
     # "two attributes built from the same parameters are equal": the same parameters handed over in each form the constructor accepts
     from xdsl.dialects.builtin import FusedLoc, NoneAttr, TupleType, UnknownLoc
 
+    # "... or parsed from the same text in different contexts are equal"
+    from xdsl.context import Context
+    from xdsl.dialects.builtin import Builtin
+    from xdsl.parser import Parser
+
+    def parse_fresh(text):
+        c = Context(allow_unregistered=True)
+        c.load_dialect(Builtin)
+        return Parser(c, text).parse_attribute()
+
+    for text in ("#foo.bar<1>", "!foo.ty<i32>", "#foo.bar", "[#a.b<x>, 1 : i32]", "{k = !q.t}", "i32", '"s"', "dense<[1, 2]> : tensor<2xi8>", "1.5 : f32"):
+        cases += 1
+        x, y = parse_fresh(text), parse_fresh(text)
+        if not (x == y and hash(x) == hash(y)):
+            return {"cases": cases, "failures": [{"key": "C08/same-text-different-contexts", "text": text, "what": "parsed twice in fresh contexts: not equal / different hashes"}],
+                    "exhaustive": True, "bound": ""}
     for name, x, y in (("TupleType(list) vs TupleType(ArrayAttr)", TupleType([i32, f32]), TupleType(ArrayAttr([i32, f32]))),
                        ("TupleType(tuple) vs TupleType(list)", TupleType((i8,)), TupleType([i8])),
                        ("FusedLoc(list) vs FusedLoc(ArrayAttr)", FusedLoc([UnknownLoc()], NoneAttr()), FusedLoc(ArrayAttr([UnknownLoc()]), NoneAttr()))):
